@@ -21,19 +21,19 @@ def config(prop, tier):
         "read_error_rate": 0.1,
     }
     if prop == "C17":
-        cfg["tree_weights"] = [6, 2, 2, 0.5]  # catalogue, corpus, examples, soup
+        cfg["tree_weights"] = {"catalogue": 6, "corpus": 2, "examples": 2, "soup": 0.5, "semsoup": 3, "graph": 2, "worldb": 1.5}
         cfg["event_weights"] = {"build": 10, "edit": 3, "torn_save": 1, "restore": 1, "delete": 0.5,
                                 "unreadable": 0.5, "duplicate": 1.5, "crash": 1, "spawn": 0.5}
         cfg["mode_weights"] = [4, 3, 3]
         cfg["runs"] = 140 if tier == "quick" else 4000
     elif prop == "C18":
-        cfg["tree_weights"] = [3, 5, 0.5, 0]
+        cfg["tree_weights"] = {"catalogue": 3, "corpus": 5, "examples": 0.5, "soup": 0, "semsoup": 1.5, "graph": 3, "worldb": 3}
         cfg["event_weights"] = {"build": 10, "edit": 1.5, "torn_save": 0.3, "restore": 1.5, "delete": 0.2,
                                 "unreadable": 0.2, "duplicate": 0.5, "crash": 1.5, "spawn": 1}
         cfg["mode_weights"] = [2, 5, 3]
         cfg["runs"] = 90 if tier == "quick" else 3000
     else:  # C16
-        cfg["tree_weights"] = [4, 4, 2, 2]
+        cfg["tree_weights"] = {"catalogue": 4, "corpus": 4, "examples": 2, "soup": 2, "semsoup": 6, "graph": 1, "worldb": 1}
         cfg["event_weights"] = {"build": 8, "edit": 7, "torn_save": 2.5, "restore": 0.7, "delete": 1,
                                 "unreadable": 1, "duplicate": 0.5, "crash": 0.7, "spawn": 0.3}
         cfg["mode_weights"] = [3, 2, 5]
@@ -89,7 +89,7 @@ def _shrink_texts(ops, still_fails, budget):
             cand[idx] = dict(op, text="\n".join(sub))
             return still_fails(cand)
 
-        new = core.ddmin(lines, fails_with, max_tests=max(4, min(30, budget - tests[0])))
+        new = core.ddmin(lines, fails_with, max_tests=max(4, min(150, budget - tests[0])))
         if len(new) < len(lines):
             ops[idx] = dict(op, text="\n".join(new))
     return ops
@@ -112,7 +112,7 @@ def minimise_task(task):
     if not still_fails(ops):
         return {"ops": ops, "reproduced": False, "tests": counter[0]}
     small = core.ddmin(ops, still_fails, max_tests=budget)
-    small = _shrink_texts(small, still_fails, budget)
+    small = _shrink_texts(small, still_fails, budget * 8)
     fm = execute_ops(small, props, zygotes, scratch, f"min{task['bucket']}-final")
     f = _same_failure(fm.failures, want)
     return {"ops": small, "reproduced": f is not None, "failure": f, "tests": counter[0]}
